@@ -69,12 +69,14 @@ def model_check(prop, tier, findings, cov):
                                                      "" if len(kinds) == 3 else "_" + "_".join(kinds), "" if resets else "_noreset")
         res = vlib.run_tlc("%s-%s" % (prop, name[:-4]), "MC_Lifecycle.tla", name, workers=12,
                            timeout=3400 if tier == "thorough" else 1200,
-                           extra_files={name: mc_cfg(mode, conns, reqs, fair, kinds, resets)}, heap="16g", tags=())
+                           extra_files={name: mc_cfg(mode, conns, reqs, fair, kinds, resets)}, heap="16g", tags=(),
+                           memo=True)
         vlib.tlc_ok(res, name)
         cov["states"] += res.distinct
         cov["transitions"] += res.generated
         cov["model_runs"].append({"config": name, "distinct": res.distinct, "generated": res.generated,
                                   "wall_s": round(res.wall, 1), "liveness": fair,
+                                  "reused_identical_run_of": res.memoised,
                                   "actions_never_taken": sorted(a for a, (d, t) in res.coverage.items() if t == 0)})
         if res.violated:
             vname = str(res.violated)
@@ -87,6 +89,199 @@ def model_check(prop, tier, findings, cov):
                     break
             else:
                 raise vlib.ToolError("Lifecycle model check failed: %s (see %s)" % (vname, res.out_path))
+
+
+
+# ---------------------------------------------------------------------------
+# spec -> implementation: schedules derived from behaviours of Lifecycle.tla
+# ---------------------------------------------------------------------------
+def plan_cfg(mode, nreq, min_before_close):
+    return "\n".join([
+        "SPECIFICATION PlanSpec", "CONSTANTS",
+        '  Conn = {"c0", "c1"}',
+        "  Req = {%s}" % ", ".join('"r%d"' % i for i in range(nreq)),
+        "  Ids = {%s}" % ", ".join('"i%d"' % i for i in range(nreq)),
+        "  MaxSteps = 1", '  Mode = "%s"' % mode,
+        '  SendKinds = {"full", "head", "body"}', "  Resets = TRUE",
+        "  MinBeforeClose = %d" % min_before_close,
+        "INVARIANT EmitPlan",
+        "INVARIANT DetachedNeverCancelled", "INVARIANT CancelOnlyWhenGone", "INVARIANT NoHandlerBeforeReject",
+        "INVARIANT ShutdownWaits", "INVARIANT CloseAfterDone", "INVARIANT WgCounts",
+        "CHECK_DEADLOCK FALSE", ""])
+
+
+def schedule_of(beh, rnd, mode):
+    """Project one behaviour (list of {act, x, y, z}) onto the steps the driver can enforce.  Returns None when
+    the harness cannot realise the behaviour (e.g. concurrent requests on a connection that must be HTTP/1)."""
+    reqs = {}   # name -> dict
+    order = []  # request names in order of their send
+    conns = ["c0", "c1"]
+    for a in beh:
+        if a["act"] == "ClientSend":
+            reqs[a["x"]] = {"conn": conns.index(a["y"]), "partial": a["z"], "acts": []}
+            order.append(a["x"])
+    for a in beh:
+        if a["x"] in reqs:
+            reqs[a["x"]]["acts"].append((a["act"], a["y"]))
+    idx = {r: i for i, r in enumerate(order)}
+    # the kind of each request, from what happens to it in the behaviour
+    for r, q in reqs.items():
+        acts = [x for x, _ in q["acts"]]
+        ready = [y for x, y in q["acts"] if x == "RespReady"]
+        complete = [y for x, y in q["acts"] if x == "HandlerComplete"]
+        if "HandlerPanic" in acts:
+            kind = "panic"
+        elif complete == ["500"]:
+            kind = "err"
+        elif "ExtractOk" in acts or "HandlerEnter" in acts:
+            kind = rnd.choice(["gate", "gatedrop", "body"])
+        elif ready and ready[0] == "400":
+            kind = rnd.choice(["badquery", "badbody"]) if "RouteOk" in acts else rnd.choice(["notfound", "badpath"])
+        elif ready:
+            return None
+        else:
+            kind = rnd.choice(["gate", "gatedrop", "body", "err", "badquery", "notfound"])
+        if q["partial"] == "body":
+            # only requests with a body can be sent with the body incomplete
+            if kind in ("gate", "gatedrop"):
+                kind = "body"
+            elif kind == "badquery":
+                kind = "badbody"
+            elif kind not in ("body", "badbody"):
+                return None
+        q["kind"] = kind
+    # HTTP/1 or HTTP/2 per connection
+    need_h1, need_h2 = set(), set()
+    for r, q in reqs.items():
+        if q["partial"] != "full":
+            need_h1.add(q["conn"])
+        if any(x == "ClientReset" for x, _ in q["acts"]):
+            need_h2.add(q["conn"])
+    open_on = {0: set(), 1: set()}
+    sent_full = {}
+    for a in beh:
+        r = a["x"]
+        if a["act"] == "ClientSend":
+            c = reqs[r]["conn"]
+            if open_on[c]:
+                need_h2.add(c)
+            open_on[c].add(r)
+            sent_full[r] = a["z"] == "full"
+        elif a["act"] == "ClientFinish":
+            sent_full[r] = True
+        elif a["act"] in ("ClientRecv", "ClientNoResponse") and r in reqs:
+            open_on[reqs[r]["conn"]].discard(r)
+        elif a["act"] in ("ExtractOk", "HandlerEnter") and r in reqs and not sent_full.get(r) \
+                and reqs[r]["kind"] in ("body", "badbody"):
+            return None   # a typed body extractor cannot finish before the body has arrived
+        elif a["act"] == "RespReady" and r in reqs and not sent_full.get(r) and reqs[r]["kind"] == "badbody":
+            return None
+    if need_h1 & need_h2:
+        return None
+    conn_h2 = [(c in need_h2) or (c not in need_h1 and rnd.random() < 0.3) for c in (0, 1)]
+    # steps
+    plan = []
+    closed = set()      # connections the client has closed
+    resetted = set()
+    rel1, rel2 = set(), set()
+    unsync = set()      # requests whose handler the driver cannot wait for (see below)
+
+    def gone(r):
+        return r in resetted or reqs[r]["conn"] in closed
+
+    for a in beh:
+        act, r = a["act"], a["x"]
+        i = idx.get(r, 0)
+        # A step of the server or the handler that the behaviour places after the client has gone away cannot
+        # be waited for: the real server may notice the departure first.  (In detached mode a handler that
+        # had entered before keeps running, so it can still be waited for.)
+        if act in ("HandlerEnter", "HandlerStep", "HandlerComplete", "HandlerPanic", "HandlerDropped") and r in reqs:
+            if act == "HandlerEnter" and gone(r):
+                unsync.add(r)
+            elif gone(r) and mode == "cancel" and act != "HandlerDropped":
+                unsync.add(r)
+            if r in unsync:
+                if act in ("HandlerStep", "HandlerComplete", "HandlerPanic") and r not in rel1:
+                    plan.append(["Release1", i])
+                    rel1.add(r)
+                if act in ("HandlerComplete", "HandlerPanic") and r not in rel2:
+                    plan.append(["Release2", i])
+                    rel2.add(r)
+                continue
+        if act == "ClientConnect":
+            plan.append(["Connect", conns.index(a["x"])])
+        elif act == "ClientDisconnect":
+            plan.append(["DisconnectConn", conns.index(a["x"])])
+            closed.add(conns.index(a["x"]))
+        elif act == "ClientSend":
+            plan.append(["Send", i])
+        elif act == "ClientFinish":
+            plan.append(["Finish", i])
+        elif act == "ClientReset":
+            plan.append(["Reset", i])
+            resetted.add(r)
+        elif act == "ClientRecv":
+            plan.append(["Recv", i])
+        elif act == "ClientNoResponse":
+            pass   # not enforceable: whether the server picks a request up before shutdown is its own choice
+        elif act == "HandlerEnter":
+            plan.append(["AwaitEnter", i])
+        elif act == "HandlerStep":
+            plan += [["Release1", i], ["AwaitStep", i]]
+            rel1.add(r)
+        elif act in ("HandlerComplete", "HandlerPanic"):
+            if r not in rel1:
+                plan += [["Release1", i], ["AwaitStep", i]]
+                rel1.add(r)
+            plan += [["Release2", i], ["AwaitEnd", i]]
+            rel2.add(r)
+        elif act == "HandlerDropped":
+            plan.append(["AwaitCancel", i])
+        elif act == "CloseRequested":
+            plan.append(["Close", 0])
+    return {"reqs": [{"conn": reqs[r]["conn"], "kind": reqs[r]["kind"], "partial": reqs[r]["partial"]} for r in order],
+            "conn_h2": conn_h2, "plan": plan}
+
+
+def spec_schedules(prop, tier, mode, cov):
+    """Behaviours of the specification (TLC simulation), projected to driver schedules, de-duplicated."""
+    import random
+    rnd = random.Random(vlib.seed() * 7 + (0 if mode == "cancel" else 1))
+    want = 40 if tier == "quick" else 400
+    seen, out = set(), []
+    stats = {"behaviours": 0, "unrealisable": 0, "duplicates": 0}
+    for nreq, mbc, num in ((1, 0, 150), (2, 0, 300), (2, 14, 400), (3, 22, 400)):
+        if tier == "thorough":
+            num *= 6
+        name = "MC_LifecyclePlan_%s_%dr_%d.cfg" % (mode, nreq, mbc)
+        res = vlib.run_tlc("%s-plan-%s-%dr-%d" % (prop, mode, nreq, mbc), "MC_LifecyclePlan.tla", name, workers=1,
+                           timeout=600, simulate=num, depth=150, coverage=False,
+                           extra_files={name: plan_cfg(mode, nreq, mbc)})
+        vlib.tlc_ok(res, name)
+        with open(res.vectors_path) as f:
+            for line in f:
+                if not line.strip():
+                    continue
+                stats["behaviours"] += 1
+                sch = schedule_of(json.loads(line), rnd, mode)
+                if sch is None:
+                    stats["unrealisable"] += 1
+                    continue
+                key = json.dumps([sch["plan"], [(q["conn"], q["partial"]) for q in sch["reqs"]]])
+                if key in seen:
+                    stats["duplicates"] += 1
+                    continue
+                seen.add(key)
+                out.append(sch)
+    rnd.shuffle(out)
+    # longest schedules first within the budget: they exercise the most
+    out.sort(key=lambda s: -len(s["plan"]))
+    half = want // 2
+    chosen = out[:half] + rnd.sample(out[half:], min(want - half, max(0, len(out) - half)))
+    stats["distinct_schedules"] = len(out)
+    stats["run"] = len(chosen)
+    cov.setdefault("spec_schedules", {})[mode] = stats
+    return chosen
 
 
 def drive_and_validate(prop, tier, findings, cov):
@@ -104,6 +299,15 @@ def drive_and_validate(prop, tier, findings, cov):
             part += 1
             path = os.path.join(outdir, "%s-%d.ndjson" % (mode, part))
             env = dict(os.environ, VERIF_SEED=str(vlib.seed() * 100 + part))
+            env.pop("VERIF_PLANS", None)
+            if part == 1:
+                # the first part also runs the schedules derived from behaviours of the specification
+                sch = spec_schedules(prop, tier, mode, cov)
+                plans = os.path.join(outdir, "%s-plans.ndjson" % mode)
+                with open(plans, "w") as f:
+                    for x in sch:
+                        f.write(json.dumps(x) + "\n")
+                env["VERIF_PLANS"] = plans
             p = subprocess.run([vlib.harness_bin("drive_lifecycle"), mode, str(n), path], env=env,
                                stdout=subprocess.PIPE, stderr=subprocess.PIPE, text=True, timeout=3000)
             if p.returncode != 0:
@@ -187,8 +391,11 @@ def run(prop, tier, text_rule):
                         ["events are totally ordered by a sequence number assigned under the event log's lock; driver "
                          "events that cause something are emitted before the cause, observations after",
                          "timeouts of 10 s stand for 'never' (typical latency is milliseconds)",
-                         "HTTP/1 connections only in this driver; a panicking handler takes its own HTTP/1 connection down "
-                         "(DESIGN section 8 rules 5, 11)",
+                         "HTTP/1 and HTTP/2 (h2c) connections; a panicking handler takes its own HTTP/1 connection down, "
+                         "an HTTP/2 panic resets its stream (DESIGN section 8)",
+                         "an exhaustive TLC run reads only the specification; its numbers are reused from an identical "
+                         "earlier run in this sandbox (same files, same configuration) when there is one -- see "
+                         "model_runs[].reused_identical_run_of",
                          "requests that had not been started when shutdown began may go unanswered (rule 6)"],
                         time.time() - t0, len(findings.violations))
     return rc
@@ -197,7 +404,9 @@ def run(prop, tier, text_rule):
 def check_c16(tier):
     return run("C16", tier,
                "TLC explores Lifecycle.tla exhaustively (2 connections x 2 requests safety, 1x2 with fairness for the "
-               "liveness properties) in both task modes; the real server is driven through seeded random plans "
+               "liveness properties) in both task modes; the real server is driven through schedules derived from behaviours of "
+               "the specification (TLC simulation of MC_LifecyclePlan.tla projected onto client / gate / close steps) and "
+               "through seeded random plans "
                "(1-4 requests, shared/pipelined or separate connections, partial sends, disconnect before/after handler "
                "entry/step/completion, handler panics and errors, invalid requests, close() at a random point) and every "
                "recorded trace must be a behaviour of the specification with all invariants holding at every step")
